@@ -153,6 +153,37 @@ fn case(tier: Tier, case_no: usize, rng: &mut Rng, rep: &mut Report) {
             }
         }
     }
+    // ---- the weight estimate only steers the load balancer: a query answers the same whatever well-formed number
+    // its weight field holds, and however that number is spelled (3 or 3.0) ----
+    let weight_col = spec.input_plugins.iter().find_map(|p| match p {
+        InputPlugin::LoadBalancerNumeric { column } => Some(column.clone().unwrap_or_else(|| "query_weight_estimate".to_string())),
+        _ => None,
+    });
+    if let Some(col) = weight_col {
+        let ref_app = reference_app.as_ref().map(|b| &b.app).unwrap_or(&built.app);
+        let cands: Vec<usize> = batch.iter().enumerate().filter(|(_, b)| b.2 == "valid" && b.0.get(&col).map(|w| w.is_number()).unwrap_or(false)).map(|(i, _)| i).collect();
+        for _ in 0..cands.len().min(4) {
+            let q = &batch[*rng.pick(&cands)].0;
+            let mut twin = q.clone();
+            let spellings = [json!(3), json!(40u64), json!(0), json!(2.5), json!(1_000_000u64), json!(7.0), json!(1e3)];
+            let w = rng.pick(&spellings).clone();
+            if w.to_string() == q[&col].to_string() {
+                continue;
+            }
+            twin[&col] = w;
+            rep.eval();
+            let a = catch(|| ref_app.run(vec![q.clone()], Some(&json!({"parallelism": 1}))));
+            let b = catch(|| ref_app.run(vec![twin.clone()], Some(&json!({"parallelism": 1}))));
+            if let (Ok(Ok(a)), Ok(Ok(b))) = (a, b) {
+                let d = first_difference(&multiset(&a), &multiset(&b));
+                if !d.is_empty() {
+                    rep.violate("C06|load-balancer|response-depends-on-the-weight-estimate", format!("B3 the same query with weight {} and with weight {} answers differently: {d}", q[&col], twin[&col]), || json!({"toml": built.toml, "query": q, "twin": twin}));
+                    return;
+                }
+                rep.count("weight_estimate_twins_confirmed", 1);
+            }
+        }
+    }
     let expected_total: usize = batch.iter().map(|b| b.1).sum();
     let reference = multiset(&alone);
     let n_err = alone.iter().filter(|r| r.get("error").is_some()).count();
